@@ -12,3 +12,12 @@ class Color(Enum):
 
 class uses_other(ReexportedClass, generic_class):
     def m(self, c: Color, o: ReexportedClass | None) -> list[Color]: ...
+
+
+import kwpkg.subpkg.mod_a as base_mod  # noqa: E402
+
+
+class dotted_base(base_mod.generic_class, base_mod.ReexportedClass):
+    """Bases written as dotted expressions."""
+
+    def own(self, a: int = -1, b: float = +2.5, c: str = 'quote', d=not True) -> "dotted_base": ...
